@@ -145,6 +145,20 @@ func sliceRoots(v ssa.Value, top *ssa.Function, seen map[ssa.Value]bool) sliceIn
 		}
 	case *ssa.MakeSlice:
 		out.roots["fresh"] = true
+	case *ssa.Extract:
+		/* before/after of bytes.Cut (and the like): plain re-slices of
+		the argument, capacity not clipped. */
+		if c, ok := x.Tuple.(*ssa.Call); ok {
+			switch calleeName(c.Common()) {
+			case "bytes.Cut", "bytes.CutPrefix", "bytes.CutSuffix":
+				o := sliceRoots(c.Common().Args[0], top, seen)
+				o.clipped = false
+				add(o)
+				return out
+			}
+		}
+		out.roots["other"] = true
+		out.clipped = false
 	case *ssa.UnOp:
 		if token.MUL != x.Op {
 			out.roots["other"] = true
@@ -152,6 +166,11 @@ func sliceRoots(v ssa.Value, top *ssa.Function, seen map[ssa.Value]bool) sliceIn
 		}
 		addr := resolveFree(x.X)
 		switch a := addr.(type) {
+		case *ssa.Global:
+			/* A package-level slice (separator constants): not src, not
+			dst; never written by the codec (checked by the store rule). */
+			out.roots["global"] = true
+			out.clipped = false
 		case *ssa.Alloc:
 			sts := storesTo(a)
 			if 0 == len(sts) {
@@ -211,6 +230,7 @@ var uuReadOnlyCallees = map[string]bool{
 	"bytes.Split": true, "slices.Chunk": true, "slices.Contains": true, "bytes.Clone": true, "bytes.Equal": true,
 	"bytes.IndexByte": true, "bytes.Contains": true, "bytes.HasPrefix": true, "bytes.HasSuffix": true, "bytes.Count": true,
 	"slices.Index": true, "bytes.TrimSpace": true, "bytes.TrimRight": true, "bytes.TrimSuffix": true, "slices.Clone": true,
+	"bytes.Cut": true, "bytes.TrimPrefix": true, "bytes.CutPrefix": true, "bytes.CutSuffix": true, "bytes.LastIndexByte": true, "bytes.Index": true,
 }
 
 func checkC15(p *Prog, r *Report) {
@@ -329,7 +349,7 @@ func checkC15(p *Prog, r *Report) {
 		for _, b := range f.Blocks {
 			/* Back edges: a successor which dominates the block. */
 			for _, s := range b.Succs {
-				if s.Dominates(b) && !strings.HasPrefix(s.Comment, "rangeindex.loop") && !strings.HasPrefix(s.Comment, "rangeint.loop") {
+				if s.Dominates(b) && !strings.HasPrefix(s.Comment, "rangeindex.loop") && !strings.HasPrefix(s.Comment, "rangeint.loop") && !isShrinkingLoop(p, s) {
 					if len(b.Instrs) > 0 {
 						fail("loop@"+s.Comment, b.Instrs[len(b.Instrs)-1], "a loop which is not a range over a slice, array or integer (%s): termination is not evident from its shape", s.Comment)
 					}
@@ -416,9 +436,9 @@ func checkC15(p *Prog, r *Report) {
 		sort.Strings(inv)
 		r.Note("index-safety: %d sites; cell invariants: %s; exact chunk lengths: %d closures", n, strings.Join(inv, ", "), len(ip.chunkEq))
 	}
+	checkC15Bits(p, r, rBits, fns) /* first: the framing and table rules use its verdict on the encoder's group code */
 	checkC15Frame(p, r, rFrame, fns)
 	checkC15Bounds(p, r, r.Rule("length-bounds", "MaxEncodedLen and MaxDecodedLen are never below what AppendEncode / AppendDecode append, for every input length"), fns)
-	checkC15Bits(p, r, rBits, fns)
 	checkC15Tables(p, r, rTab, fns)
 }
 
@@ -559,7 +579,9 @@ func checkC15Frame(p *Prog, r *Report, ru *Rule, fns map[*ssa.Function]*ssa.Func
 					_ = idx
 				}
 			}
-			if 2 == npad {
+			if encGroupProved {
+				ru.OK(fnName(f)+":zero-padding", f.Pos(), "short groups are encoded as if padded with zero bytes (see bit-layout: groups of 2 and 1)")
+			} else if 2 == npad {
 				ru.OK(fnName(f)+":zero-padding", f.Pos(), "short groups are padded with zero bytes")
 			} else {
 				ru.Bad(fnName(f)+":zero-padding", f.Pos(), "%d zero-padding appends found, 2 expected (for groups of 2 and of 1 byte)", npad)
@@ -588,9 +610,39 @@ func firstConstIndexBlock(f *ssa.Function) (*ssa.BasicBlock, ssa.Value) {
 	return nil, nil
 }
 
+// encGroupProved is set by checkC15Bits when the encoder's group code was
+// decided by symbolic evaluation (regrouping, zero padding and alphabet).
+var encGroupProved bool
+
 func checkC15Bits(p *Prog, r *Report, ru *Rule, fns map[*ssa.Function]*ssa.Function) {
 	enc := p.Func(uuPkg, "", "AppendEncode")
 	dec := p.Func(uuPkg, "", "AppendDecode")
+	encGroupProved = false
+	off, _ := uuConst(p, "uuOffset")
+	for f, top := range fns {
+		if top != enc || f == enc {
+			continue
+		}
+		it := iteratorOf(f)
+		if nil == it || "slices.Chunk" != calleeName(it.Common()) {
+			continue
+		}
+		if size, _ := constInt(it.Common().Args[1]); 3 != size {
+			continue
+		}
+		/* The function handling one group of up to three bytes. */
+		c := fnName(f) + ":3→4"
+		why, pos, npaths := checkEncoderGroup(f, func(v ssa.Value) bool { return isDstValue(v, enc) }, off)
+		if "" == why {
+			encGroupProved = true
+			ru.OK(c, f.Pos(), "for groups of 3, 2 and 1 bytes and on each of %d paths the four appended symbols are '`' for a zero 6-bit group and %d + the group otherwise, the groups being input bits 0-5, 6-11, 12-17, 18-23 of the zero-padded input", npaths, off)
+		} else {
+			if !pos.IsValid() {
+				pos = f.Pos()
+			}
+			ru.Bad(c, pos, "the encoder's group code does not compute uuencode's symbols: %s", why)
+		}
+	}
 	for f, top := range fns {
 		b, chunk := firstConstIndexBlock(f)
 		if nil == b {
@@ -626,7 +678,7 @@ func checkC15Bits(p *Prog, r *Report, ru *Rule, fns map[*ssa.Function]*ssa.Funct
 			return int(k), ok
 		}
 		switch {
-		case top == enc && 3 == size:
+		case top == enc && 3 == size && false: /* superseded by checkEncoderGroup above */
 			m.Input = func(l *ssa.UnOp) bv {
 				if k, ok := chunkIndex(l); ok && k >= 0 && k < 3 {
 					return inputByte(k)
@@ -803,7 +855,13 @@ func checkC15Tables(p *Prog, r *Report, ru *Rule, fns map[*ssa.Function]*ssa.Fun
 			r.Saw("func " + fnName(f))
 		}
 	}
-	if !haveEnc {
+	if encGroupProved {
+		ru.OK(fnName(enc)+":alphabet", enc.Pos(), "every symbol is '`' for the zero group and 32 + the group otherwise (decided with the regrouping, see bit-layout): Perl's pack('u') alphabet")
+		for s := int64(0); s < 64; s++ {
+			encTable[s] = s + 32
+		}
+		encTable[0] = 96
+	} else if !haveEnc {
 		ru.Unproven(fnName(enc)+":alphabet", token.NoPos, "the encoder's zero-symbol test was not found")
 	} else {
 		var wrong []string
@@ -935,4 +993,125 @@ func firstN(ss []string, n int) []string {
 		return append(append([]string(nil), ss[:n]...), "...")
 	}
 	return ss
+}
+
+// isShrinkingLoop: the loop headed by h runs while a slice is non-empty and
+// every iteration replaces that slice by what bytes.Cut leaves after a
+// non-empty separator, which is strictly shorter: it terminates.
+func isShrinkingLoop(p *Prog, h *ssa.BasicBlock) bool {
+	ifi := blockIf(h)
+	if nil == ifi {
+		return false
+	}
+	/* The condition: len(R) != 0 / 0 != len(R) / len(R) > 0 / 0 < len(R). */
+	bo, ok := ifi.Cond.(*ssa.BinOp)
+	if !ok {
+		return false
+	}
+	x, y := bo.X, bo.Y
+	op := bo.Op
+	if k, isC := constInt(x); isC && 0 == k {
+		x, y = y, x
+		switch op {
+		case token.LSS:
+			op = token.GTR
+		case token.GTR:
+			op = token.LSS
+		}
+	}
+	if k, isC := constInt(y); !isC || 0 != k || (token.NEQ != op && token.GTR != op) {
+		return false
+	}
+	lc, ok := x.(*ssa.Call)
+	if !ok {
+		return false
+	}
+	if bi, isB := lc.Common().Value.(*ssa.Builtin); !isB || "len" != bi.Name() {
+		return false
+	}
+	ph, ok := lc.Common().Args[0].(*ssa.Phi)
+	if !ok || ph.Block() != h {
+		return false
+	}
+	/* Back-edge values of R. */
+	nback := 0
+	for k, e := range ph.Edges {
+		pred := h.Preds[k]
+		if !h.Dominates(pred) {
+			continue /* entry edge */
+		}
+		nback++
+		ex, ok := e.(*ssa.Extract)
+		if !ok || 1 != ex.Index {
+			return false
+		}
+		c, ok := ex.Tuple.(*ssa.Call)
+		if !ok || "bytes.Cut" != calleeName(c.Common()) && "strings.Cut" != calleeName(c.Common()) {
+			return false
+		}
+		if c.Common().Args[0] != ssa.Value(ph) || !nonEmptySeparator(p, c.Common().Args[1]) {
+			return false
+		}
+		/* The body is entered over the "non-empty" edge. */
+		if !h.Succs[0].Dominates(c.Block()) && h.Succs[0] != c.Block() {
+			return false
+		}
+	}
+	return nback > 0
+}
+
+// nonEmptySeparator: a non-empty constant string, a local []byte literal, or
+// a package variable of the module initialised once with such a literal.
+func nonEmptySeparator(p *Prog, v ssa.Value) bool {
+	v = stripConv(v, true)
+	if s, ok := constString(v); ok {
+		return "" != s
+	}
+	if sl, ok := v.(*ssa.Slice); ok {
+		if al, ok := sl.X.(*ssa.Alloc); ok {
+			if n, ok := literalLen(al); ok {
+				return n > 0
+			}
+		}
+	}
+	u, ok := v.(*ssa.UnOp)
+	if !ok || token.MUL != u.Op {
+		return false
+	}
+	g, ok := u.X.(*ssa.Global)
+	if !ok || nil == g.Pkg || !strings.HasPrefix(g.Pkg.Pkg.Path(), ModPath) {
+		return false
+	}
+	n, good := 0, false
+	scan := func(fn *ssa.Function) {
+		eachInstr(fn, func(i ssa.Instruction) {
+			st, ok := i.(*ssa.Store)
+			if !ok {
+				return
+			}
+			if st.Addr == ssa.Value(g) {
+				n++
+				if sl, ok := st.Val.(*ssa.Slice); ok {
+					if al, ok := sl.X.(*ssa.Alloc); ok {
+						if k, ok := literalLen(al); ok && k > 0 {
+							good = true
+						}
+					}
+				}
+			}
+			/* Element writes through the variable. */
+			if ia, ok := st.Addr.(*ssa.IndexAddr); ok {
+				if l2, ok := ia.X.(*ssa.UnOp); ok && token.MUL == l2.Op && l2.X == ssa.Value(g) {
+					n += 2
+				}
+			}
+		})
+	}
+	if ini := g.Pkg.Func("init"); nil != ini {
+		scan(ini)
+	}
+	for _, fn := range p.Funcs() {
+		scan(fn)
+	}
+	return 1 == n && good
 }
